@@ -703,6 +703,23 @@ pub fn check_transition<const N: usize>(
                 if !matches!(r, Ok(None)) {
                     out.push(Finding::new("add-not-blank", &["C04", "C03"], format!("{} created ν{v} but data({v}) on a copy gives {r:?} instead of None", op.text())));
                 }
+                // blank also for the calls that copy a vertex somewhere else: its slice is one vertex
+                // without data, and merged into a fresh vertex (when it is the whole graph) it brings nothing
+                let r = guarded(|| g1.slice(v).ok().map(|mut s| (crate::real::keys_sorted(&s), kids_of(&s, v).len(), s.data(v).map(|h| h.to_vec()))));
+                if !matches!(&r, Ok(Some((k, 0, None))) if *k == vec![v]) {
+                    out.push(Finding::new("add-not-blank", &["C04"], format!("{} created ν{v}, but its slice (keys, number of edges, datum) is {r:?} instead of one blank vertex", op.text())));
+                }
+                if m1.present.len() == 1 {
+                    let r = guarded(|| {
+                        let mut l: Sodg<N> = Sodg::empty(2);
+                        l.add(0);
+                        let ok = l.merge(g1, 0, v).is_ok();
+                        (ok, kids_of(&l, 0).len(), l.data(0).map(|h| h.to_vec()))
+                    });
+                    if !matches!(r, Ok((true, 0, None))) {
+                        out.push(Finding::new("add-not-blank", &["C04"], format!("{} created ν{v} in an otherwise empty graph, but merging that graph into a fresh vertex gives (Ok?, edges, datum) = {r:?} instead of nothing", op.text())));
+                    }
+                }
             } else {
                 // present before: nothing may change, incl. the moment of collection.
                 // Differential oracle: reading everything, in either order, must go
